@@ -367,6 +367,8 @@ var c13WiringExceptions = map[string]map[string]string{
 	"rtspsServer": {"RTPAddress": "SRTPAddress", "RTCPAddress": "SRTCPAddress", "MulticastRTPPort": "MulticastSRTPPort", "MulticastRTCPPort": "MulticastSRTCPPort", "UDPReadBufferSize": ""},
 }
 
+var c13DebugWiring = false
+
 // c13WiringCheck compares every component field that has a namesake in conf.Conf with the value of that
 // configuration field. It returns the mismatches and the number of (component, field) pairs compared.
 func c13WiringCheck(st c13State, cf any) ([]string, int) {
@@ -422,6 +424,9 @@ func c13WiringCheck(st c13State, cf any) ([]string, int) {
 				continue
 			}
 			n++
+			if c13DebugWiring {
+				fmt.Printf("c13 wiring: %s.%s <- %s\n", role, f, cname)
+			}
 			if want := c13CanonVal(cval, 0); want != s.Conf[f] {
 				out = append(out, fmt.Sprintf("%s.%s = %s but the configuration says %s = %s", role, f, c13Short(s.Conf[f]), cname, c13Short(want)))
 			}
